@@ -157,6 +157,13 @@ def run_ctor(case):
             return {labels[level][k]: nested(level + 1, idx + [k]) for k in range(len(labels[level]))}
         forms.append(("nested dicts", lambda: da.DimArray(nested(0, []), dims=list(dims))))
         forms.append(("from_nested", lambda: da.DimArray.from_nested(nested(0, []), dims=list(dims))))
+        if nd >= 2:
+            def nested_arr(level, idx):       # dictionaries down to the last dimension, whose values are 1-d arrays
+                if level == nd - 1:
+                    return np.array(vals[tuple(idx)], copy=True)
+                return {labels[level][k]: nested_arr(level + 1, idx + [k]) for k in range(len(labels[level]))}
+            forms.append(("nested dicts with array leaves, labels= down to the leaves", lambda: da.DimArray(nested_arr(0, []), dims=list(dims), labels=[list(l) for l in labels])))
+            forms.append(("from_nested with array leaves, labels=", lambda: da.DimArray.from_nested(nested_arr(0, []), dims=list(dims), labels=[list(l) for l in labels])))
     if nd == 1:
         forms.append(("1-d: (name, labels) tuple", lambda: da.DimArray(vals, (dims[0], larr[0].copy()))))
         forms.append(("1-d: labels, name", lambda: da.DimArray(vals, larr[0].copy(), dims[0])))
@@ -597,8 +604,16 @@ def _relabel(da, x, y, k, m):
     ds = inplace_dims(x)
     d = ds[k % len(ds)]
     n = x.shape[d]
-    form = m % 5
+    form = m % 7
     numeric = x.axes[d].is_numeric()
+    if form >= 5:
+        # string labels handed to the values setter as a plain list of short words; a later relabelling writes longer ones
+        if form == 5:
+            x.axes[d].values = [chr(97 + (i + k) % 26) for i in range(n)]
+        else:
+            x.axes[d].values = ["w%d" % i for i in range(n)]
+            x.axes[d][k % n] = "a-much-longer-label-%d" % k
+        return None
     if form == 0:
         x.axes[d][k % n] = (500 + k) if numeric else "zz%d" % k
     elif form == 1:
